@@ -1,4 +1,248 @@
-//! placeholder
+//! E2: lifecycle simulator (C12) and back-off plane (C19) over the real MqttClientImpl.
+
+pub mod world;
+
 use crate::common::*;
-pub fn run_c12(tier: Tier) -> i32 { let _ = tier; eprintln!("not implemented"); 2 }
-pub fn run_c19(tier: Tier) -> i32 { let _ = tier; eprintln!("not implemented"); 2 }
+use crate::engine::explore::{confirm, explore, ConfigResult, Limits, Sys};
+use gneiss_mqtt::client::config::OfflineQueuePolicy;
+use rayon::prelude::*;
+use serde_json::{json, Value};
+use std::collections::HashSet;
+use std::sync::atomic::{AtomicU64, Ordering};
+use std::sync::{Arc, Mutex};
+use std::time::Duration;
+use world::*;
+
+impl Sys for LWorld {
+    type Ev = LEv;
+    type Cfg = LCfg;
+    fn replay(cfg: &Arc<LCfg>, history: &[LEv]) -> LWorld { LWorld::replay(cfg, history, false) }
+    fn set_spent(&mut self, spent: u32) { self.spent = spent; }
+    fn spent(&self) -> u32 { self.spent }
+    fn enabled(&mut self) -> Vec<(LEv, u32)> { LWorld::enabled(self) }
+    fn apply(&mut self, ev: &LEv) { LWorld::apply(self, ev) }
+    fn violations(&self) -> Vec<Violation> { self.violations.clone() }
+    fn dead(&self) -> bool { self.dead }
+    fn key(&mut self) -> u128 { LWorld::key(self) }
+    fn closure(self, steps: usize) -> Vec<Violation> { self.fair_closure(steps) }
+    fn outcome_hash(&self) -> u64 { crate::engine::world::hash_of(&self.events) }
+    fn budget(cfg: &LCfg) -> u32 { cfg.budget }
+    fn max_depth(cfg: &LCfg) -> usize { cfg.max_depth }
+    fn closure_steps(cfg: &LCfg) -> Option<usize> { if cfg.closure { Some(60) } else { None } }
+    fn name(cfg: &LCfg) -> String { cfg.name.clone() }
+    fn describe(cfg: &LCfg) -> String { cfg.describe() }
+}
+
+pub fn c12_configs(tier: Tier) -> Vec<LCfg> {
+    let thorough = tier == Tier::Thorough;
+    let mut out = Vec::new();
+    for mode in [LoopMode::Tokio, LoopMode::Threaded] {
+        for keep_alive in [0u16, 2] {
+            for policy in [OfflineQueuePolicy::PreserveAll, OfflineQueuePolicy::PreserveNothing] {
+                if !thorough && keep_alive == 2 && policy == OfflineQueuePolicy::PreserveNothing { continue; }
+                let mut c = LCfg::base(&format!("{:?}-ka{}-{:?}", mode, keep_alive, policy), mode);
+                c.keep_alive = keep_alive;
+                c.offline = policy;
+                c.requests = vec![Req::Start, Req::Stop, Req::StopDisconnect, Req::Close, Req::Publish];
+                c.max_requests = if thorough { 4 } else { 3 };
+                c.max_attempts = if thorough { 3 } else { 2 };
+                c.budget = if thorough { 3 } else { 2 };
+                c.max_depth = if thorough { 34 } else { 26 };
+                out.push(c);
+            }
+        }
+    }
+    out
+}
+
+pub fn run_c12(tier: Tier) -> i32 {
+    let mut report = Report::new("C12", tier, "model_checking");
+    if !crate::vclock::self_test() { report.machinery_errors.push("virtual clock interposition is not effective".into()); return report.finish(); }
+    let known = KnownFindings::load();
+    let configs = c12_configs(tier);
+    let pool = rayon::ThreadPoolBuilder::new().num_threads(threads()).build().unwrap();
+    let small_pool = rayon::ThreadPoolBuilder::new().num_threads((threads() / 3).max(2)).build().unwrap();
+    let total_wall = if tier == Tier::Quick { 45.0 } else { 1200.0 };
+    let limits = Limits { max_states: if tier == Tier::Quick { 600_000 } else { 20_000_000 }, max_wall: Duration::from_secs_f64(total_wall / configs.len() as f64), trace: None };
+    let (mut states, mut transitions, mut executions, mut closures, mut outcomes) = (0u64, 0u64, 0u64, 0u64, 0u64);
+    let mut rows = Vec::new(); let mut samples = Vec::new(); let mut capped = Vec::new(); let mut determinism: Option<bool> = None; let mut max_depth = 0;
+    for (index, cfg) in configs.iter().enumerate() {
+        let cfg = Arc::new(cfg.clone());
+        let result: ConfigResult<LEv> = explore::<LWorld>(&cfg, &limits, &pool);
+        if determinism.is_none() && !result.capped && result.states < 200_000 {
+            let again = explore::<LWorld>(&cfg, &limits, &small_pool);
+            let equal = again.states == result.states && again.transitions == result.transitions;
+            determinism = Some(equal);
+            if !equal { report.machinery_errors.push(format!("state/transition counts differ between two runs of {}: {}/{} vs {}/{}", cfg.name, result.states, result.transitions, again.states, again.transitions)); }
+        }
+        states += result.states; transitions += result.transitions; executions += result.executions; closures += result.closures; outcomes += result.distinct_outcomes; max_depth = max_depth.max(result.max_depth);
+        if result.capped { capped.push(format!("{} (complete to depth {})", result.cfg_name, result.depth_completed)); }
+        rows.push(json!({"config": result.cfg_name, "states": result.states, "transitions": result.transitions, "max_depth": result.max_depth, "terminal_states": result.terminal_states, "distinct_event_streams": result.distinct_outcomes, "capped": result.capped, "wall_s": (result.wall_s * 100.0).round() / 100.0}));
+        if samples.len() < 4 { if let Some(s) = result.samples.last() { samples.push(json!({"config": result.cfg_text, "history": s})); } }
+        for found in &result.found {
+            let v = &found.violation;
+            if v.property == "MACHINERY" { report.machinery_errors.push(format!("{}: {}", v.signature, v.detail)); continue; }
+            if v.property != "C12" { report.add_count("violations_of_other_properties_seen", 1); continue; }
+            if let Some(k) = known.matches(v) { report.known_hit.insert((v.property.clone(), format!("{} [{}]", k.what_fails, k.signature))); continue; }
+            if report.violations.iter().any(|(x, _)| x.signature == v.signature) { continue; }
+            let signature = (v.property.clone(), v.signature.clone());
+            let mut v2 = v.clone();
+            if let Err(problem) = confirm::<LWorld>(&cfg, &found.history, &signature, found.in_closure) { v2.detail = format!("{} [replay note: {}]", v2.detail, problem); }
+            let body = json!({"kind": "lifecycle-history", "tier": tier.name(), "config_index": index, "config": cfg.describe(), "history": found.history.iter().map(|e| e.to_text()).collect::<Vec<_>>(), "then_fair_closure": found.in_closure, "property": v.property, "signature": v.signature, "detail": v.detail});
+            let path = write_replay("C12", &v.signature, &body);
+            report.violations.push((v2, path));
+        }
+    }
+    report.set("engine", json!("E2 explicit-state BFS: transitions call the real MqttClientImpl (verif::ClientImpl) on a per-thread virtual clock; the environment is a mirror of the tokio / threaded loop shells"));
+    report.set("configs", json!(configs.len()));
+    report.add_count("states", states); report.add_count("transitions", transitions); report.add_count("traces_validated_against_impl", executions); report.add_count("fair_closures_run", closures);
+    report.set("max_depth", json!(max_depth)); report.set("distinct_event_streams", json!(outcomes)); report.set("per_config", json!(rows)); report.set("samples", json!(samples));
+    report.set("exhaustive", json!(capped.is_empty())); report.set("capped", json!(capped)); report.set("determinism_rerun_equal", json!(determinism));
+    report.assume("the loop mirror (which calls the loop makes after each observed event, tokio: one source per iteration, threaded: operation->read->service->write per iteration) is a hand-written model of client_event_loop/process_* in both drivers; it is bound to the real drivers by the E3 replays (C13)");
+    report.assume("every explored history is an execution of the real MqttClientImpl and ProtocolState");
+    report.assume("Instant::now() inside the client is virtualised by link-time interposition of clock_gettime (self-tested at start)");
+    report.finish()
+}
+
+pub fn replay_file(value: &Value) -> i32 {
+    let tier = if value["tier"].as_str() == Some("thorough") { Tier::Thorough } else { Tier::Quick };
+    let index = value["config_index"].as_u64().unwrap_or(0) as usize;
+    let configs = c12_configs(tier);
+    let Some(cfg) = configs.get(index) else { eprintln!("no such config"); return 2; };
+    let cfg = Arc::new(cfg.clone());
+    let history: Vec<LEv> = value["history"].as_array().map(|a| a.iter().filter_map(|e| LEv::from_text(e.as_str().unwrap_or(""))).collect()).unwrap_or_default();
+    println!("config: {}", cfg.describe());
+    let mut w = LWorld::replay(&cfg, &history, true);
+    for line in &w.log { println!("{}", line); }
+    let violations = if value["then_fair_closure"].as_bool() == Some(true) && !w.dead { w.log.clear(); println!("--- fair closure ---"); w.record = true; let v = { let mut w2 = w; let r = w2.log.len(); let _ = r; w2.fair_closure(60) }; v } else { w.violations.clone() };
+    let mut hit = false;
+    for v in &violations { println!("VIOLATION property={} signature={} :: {}", v.property, v.signature, v.detail); if Some(v.signature.as_str()) == value["signature"].as_str() { hit = true; } }
+    if hit { 1 } else { 0 }
+}
+
+// -------------------------------------------------------------------------------------------------
+// C19: the back-off plane
+// -------------------------------------------------------------------------------------------------
+
+#[derive(Clone, Copy, Debug, PartialEq, Eq, Hash)]
+enum Outcome { Refused, HandshakeFailed, Connected(u64) }
+
+fn reference_norm(base: Duration, max: Duration) -> (Duration, Duration) {
+    let (mut b, mut m) = (base, max);
+    if b > m { std::mem::swap(&mut b, &mut m); }
+    if m < Duration::from_secs(1) { m = Duration::from_secs(1); }
+    (b, m)
+}
+
+fn reference_wait(base: Duration, max: Duration, k: u32) -> Duration {
+    let mut w = base;
+    for _ in 0..k { w = w.checked_mul(2).unwrap_or(Duration::MAX); if w >= max { break; } }
+    w.min(max)
+}
+
+pub fn run_c19(tier: Tier) -> i32 {
+    let mut report = Report::new("C19", tier, "model_checking");
+    if !crate::vclock::self_test() { report.machinery_errors.push("virtual clock interposition is not effective".into()); return report.finish(); }
+    let known = KnownFindings::load();
+    let thorough = tier == Tier::Thorough;
+    let durations: Vec<(&str, Duration)> = vec![("0", Duration::ZERO), ("1ns", Duration::from_nanos(1)), ("1ms", Duration::from_millis(1)), ("500ms", Duration::from_millis(500)), ("1s", Duration::from_secs(1)), ("3s", Duration::from_secs(3)), ("1h", Duration::from_secs(3600)), ("MAX/3", Duration::MAX / 3), ("MAX", Duration::MAX)];
+    let stabilities: Vec<(&str, Duration)> = if thorough { durations.clone() } else { vec![("0", Duration::ZERO), ("1s", Duration::from_secs(1)), ("1h", Duration::from_secs(3600)), ("MAX", Duration::MAX)] };
+    let length = if thorough { 6 } else { 4 };
+    let mut configs = Vec::new();
+    for (bn, b) in &durations { for (mn, m) in &durations { for (sn, s) in &stabilities { for jitter in [false, true] {
+        configs.push((format!("base={} max={} stability={} jitter={}", bn, mn, sn, if jitter { "uniform" } else { "none" }), *b, *m, *s, jitter));
+    } } } }
+    let found: Mutex<std::collections::BTreeMap<String, (Violation, Value)>> = Mutex::new(Default::default());
+    let states = AtomicU64::new(0); let transitions = AtomicU64::new(0); let executions = AtomicU64::new(0); let waits_checked = AtomicU64::new(0);
+    let outcomes: Mutex<HashSet<u64>> = Mutex::new(HashSet::new());
+    let samples: Mutex<Vec<Value>> = Mutex::new(Vec::new());
+    let pool = rayon::ThreadPoolBuilder::new().num_threads(threads()).build().unwrap();
+    pool.install(|| {
+        configs.par_iter().for_each(|(name, base, max, stability, jitter)| {
+            let mut cfg = LCfg::base(name, LoopMode::Tokio);
+            cfg.base = *base; cfg.max = *max; cfg.stability = *stability; cfg.jitter = *jitter; cfg.max_attempts = 100; cfg.closure = false;
+            let cfg = Arc::new(cfg);
+            let (nb, nm) = reference_norm(*base, *max);
+            // connection lifetimes around the stability period
+            let mut lifetimes: Vec<u64> = vec![0];
+            let stab_ns = stability.as_nanos().min((u64::MAX / 8) as u128) as u64;
+            if *stability < Duration::from_secs(400 * 86400) {
+                if stab_ns > 0 { lifetimes.push(stab_ns - 1); }
+                lifetimes.push(stab_ns); lifetimes.push(stab_ns + 1);
+            } else { lifetimes.push(3_600_000_000_000); }
+            lifetimes.sort(); lifetimes.dedup();
+            let mut alphabet = vec![Outcome::Refused, Outcome::HandshakeFailed];
+            for l in &lifetimes { alphabet.push(Outcome::Connected(*l)); }
+            // depth-first over all outcome sequences up to `length`; each node re-executes its prefix on a fresh client
+            let mut stack: Vec<Vec<Outcome>> = vec![Vec::new()];
+            while let Some(seq) = stack.pop() {
+                states.fetch_add(1, Ordering::Relaxed);
+                if !seq.is_empty() {
+                    executions.fetch_add(1, Ordering::Relaxed);
+                    let mut events = vec![LEv::Op(Req::Start)];
+                    for o in &seq {
+                        match o {
+                            Outcome::Refused => { events.push(LEv::ConnectErr); }
+                            Outcome::HandshakeFailed => { events.extend([LEv::ConnectOk, LEv::Service, LEv::WriteAll, LEv::Read(Reply::ConnackFail)]); }
+                            Outcome::Connected(ns) => { events.extend([LEv::ConnectOk, LEv::Service, LEv::WriteAll, LEv::Read(Reply::ConnackOk), LEv::Idle(*ns), LEv::ReadEof]); }
+                        }
+                        events.push(LEv::Timer);
+                    }
+                    events.pop();
+                    let w = LWorld::replay(&cfg, &events, false);
+                    // reference recurrence
+                    let mut k = 0u32; let mut expected = Vec::new();
+                    for o in &seq {
+                        if let Outcome::Connected(ns) = o { if Duration::from_nanos(*ns) > *stability { k = 0; } }
+                        expected.push(reference_wait(nb, nm, k));
+                        k += 1;
+                    }
+                    let mut problem: Option<(String, String)> = None;
+                    for v in &w.violations { if problem.is_none() { problem = Some((format!("{} {}", v.property, v.signature), v.detail.clone())); } }
+                    if problem.is_none() {
+                        if w.waits.len() != expected.len() { problem = Some(("C19 wait-count".into(), format!("{} waits for {} outcomes", w.waits.len(), expected.len()))); }
+                        for (i, (got, want)) in w.waits.iter().zip(expected.iter()).enumerate() {
+                            waits_checked.fetch_add(1, Ordering::Relaxed);
+                            let ok = if *jitter { got <= want } else { got == want };
+                            if !ok && problem.is_none() {
+                                let class = if *base > *max { "base>max" } else if *max < Duration::from_secs(1) { "max<1s" } else { "ordered" };
+                                let kind = if !*jitter { if got > &nm { "exceeds effective maximum" } else if got > want { "too long" } else { "too short" } } else { "jittered wait above the bound" };
+                                problem = Some((format!("C19 wait-{} ({}, attempt index {}{})", kind.replace(' ', "-"), class, i.min(3), if matches!(seq.get(i), Some(Outcome::Connected(_))) { ", after a connection" } else { "" }), format!("config {}: outcomes {:?}: waits {:?}, reference {:?}", name, seq, w.waits, expected)));
+                            }
+                        }
+                    }
+                    outcomes.lock().unwrap().insert(crate::engine::world::hash_of(&(w.waits.clone(), w.violations.len())));
+                    if let Some((sig, detail)) = problem {
+                        let (property, signature) = match sig.split_once(' ') { Some((p, s)) => (p.to_string(), s.to_string()), None => ("C19".to_string(), sig.clone()) };
+                        let property = if property == "C11" { "C19".to_string() } else { property };
+                        let v = Violation::new(&property, signature.clone(), detail);
+                        let body = json!({"kind": "backoff-sequence", "config": name, "outcomes": format!("{:?}", seq), "events": events.iter().map(|e| e.to_text()).collect::<Vec<_>>(), "signature": signature});
+                        let mut map = found.lock().unwrap();
+                        map.entry(format!("{} {}", property, signature)).or_insert((v, body));
+                        continue; // do not extend a failing prefix
+                    }
+                    if samples.lock().unwrap().len() < 3 && seq.len() == length { samples.lock().unwrap().push(json!({"config": name, "outcomes": format!("{:?}", seq), "waits": format!("{:?}", w.waits)})); }
+                }
+                if seq.len() < length {
+                    for o in &alphabet { transitions.fetch_add(1, Ordering::Relaxed); let mut next = seq.clone(); next.push(*o); stack.push(next); }
+                }
+            }
+        });
+    });
+    for (_, (v, body)) in found.into_inner().unwrap() {
+        if let Some(k) = known.matches(&v) { report.known_hit.insert((v.property.clone(), format!("{} [{}]", k.what_fails, k.signature))); continue; }
+        let path = write_replay("C19", &v.signature, &body);
+        report.violations.push((v, path));
+    }
+    report.set("engine", json!("E2 back-off plane: every sequence of attempt outcomes up to the bound, for every configuration of the grid, executed on the real MqttClientImpl (advance_reconnect_period, transition_to_state) under the loop mirror with a virtual clock; oracle = reference recurrence"));
+    report.set("configs", json!(configs.len()));
+    report.set("sequence_length_bound", json!(length));
+    report.add_count("states", states.load(Ordering::Relaxed)); report.add_count("transitions", transitions.load(Ordering::Relaxed)); report.add_count("traces_validated_against_impl", executions.load(Ordering::Relaxed));
+    report.set("waits_checked", json!(waits_checked.load(Ordering::Relaxed)));
+    report.set("distinct_wait_sequences", json!(outcomes.lock().unwrap().len()));
+    report.set("samples", json!(samples.into_inner().unwrap()));
+    report.set("exhaustive", json!(true));
+    report.assume("the uniform jitter draw itself (rand::thread_rng) is not enumerable: with jitter the observed wait is checked against the exhaustive range [0, w_k] for every history");
+    report.assume("connection lifetimes are taken from {0, stability-1ns, stability, stability+1ns} (1 h for astronomically large stability periods)");
+    report.finish()
+}
